@@ -1722,10 +1722,10 @@ class Component(System):
                 meta = subjacs_info[key]
                 self._approx_schemes[meta['method']].add_approximation(wrt, self, meta)
 
-        # get rid of any empty approx schemes
-        to_remove = [name for name, scheme in self._approx_schemes.items() if not scheme._wrt_meta]
-        for name in to_remove:
-            del self._approx_schemes[name]
+        # empty approx schemes are kept: the keys of _approx_schemes are the registry of the declared
+        # approximation methods (read by _approx_subjac_keys_iter and by the next call of this method),
+        # and a scheme that is empty only because relevance pruned its wrts must come back when the
+        # relevance changes.
 
     def _guess_nonlinear(self):
         """
